@@ -1,6 +1,7 @@
 import SeqVerif.Model.CollectorLemmas
 import SeqVerif.Model.DedupLemmas
 import SeqVerif.Model.DedupConcurrent
+import SeqVerif.Model.C17Compose
 import SeqVerif.Model.RepetitionsLemmas
 import SeqVerif.Extracted.C17
 /-!
@@ -13,8 +14,11 @@ Only property theorems, extracted-fact obligations and non-vacuity examples live
 
 DESIGN section 5 names -> theorems here: `filter_projection` = `c17_filter_projection` (+ `c17_collect_view`,
 `c17_groups`); `c17_idempotent` (+ `c17_counted_once`, `c17_fetch_original`, `c17_concurrent_once`);
-`c17_cross_fraction_once` (+ `c17_repetitions_once`, `c17_histogram_corrected`, `c17_cross_fraction_counts`).
-Seal and restart are not modelled here (C03 / C01); the system oracle of the harness runs them on the real store.
+`c17_cross_fraction_once` (+ `c17_repetitions_once`, `c17_histogram_corrected`, `c17_cross_fraction_counts`);
+"preserved by seal and replay" = `c17_sealed_once` (with C03's `seal_agrees`) and `c17_replayed_once` (with C01's
+restart transparency); both are also run on the real store by the system oracle of the harness.
+Nested metas (`Size = 0`, id of their document) are inside `c17_idempotent` (`GoodBulks`); `c17_counted_once`,
+`c17_fetch_original`, `c17_concurrent_once` are stated for bulks without nested metas (one LID per id).
 -/
 namespace SV.Props.C17
 open SV.Collector
@@ -63,15 +67,26 @@ theorem c17_groups (b : Nat) (ms : List Meta) (app : List ID) (lids : List Nat)
   rw [this, (c17_filter_projection b ms app).1]
   simp [hf.2.2]
 
-/-- **c17_idempotent.**  For every history of bulks delivered to one active fraction - each bulk with pairwise
-distinct ids, documents non-empty, *arbitrary* subsets of earlier documents re-sent any number of times (whole
-bulks, partial overlaps, the same document again and again) - the index state equals the state after the history
-with every repeat removed: the same ids at the same LIDs, for every token the same postings, the same `DocsTotal`,
-`From`, `To`.  No search, total, histogram or aggregation over the fraction can see the repeats. -/
-theorem c17_idempotent (h : List (List Meta)) (hd : DistinctBulks h) (hs : NonEmptyDocs h) :
-    Same (run Active.empty h) (run Active.empty (norep h)) :=
-  run_norepFrom Active.empty Active.empty [] h ainv_empty ainv_empty
-    ⟨rfl, fun _ => rfl, rfl, rfl, rfl, rfl⟩ (by simp [Active.empty, docIds]) hd hs
+/-- **c17_idempotent.**  For every history of bulks delivered to one active fraction - each bulk a sequence of
+documents with pairwise distinct ids, every document optionally followed by nested metas (`Size = 0`, same id) -
+in which *arbitrary* subsets of earlier documents are re-sent any number of times (whole bulks, partial overlaps,
+the same document again and again), the index state equals the state after the history with every repeat
+removed: the same ids at the same LIDs, for every token the same postings, the same `DocsTotal`, `From`, `To`.
+No search, total, histogram or aggregation over the fraction can see the repeats.  The LID list is exactly the
+metas of the first deliveries, in delivery order. -/
+theorem c17_idempotent (h : List (List Meta)) (hg : GoodBulks h) :
+    Same (run Active.empty h) (run Active.empty (norep h)) ∧
+    docIds (run Active.empty h) = allIds (norep h) ∧
+    (run Active.empty h).docsTotal = (allIds (norep h)).length := by
+  obtain ⟨h1, h2⟩ := run_norepFromN Active.empty Active.empty [] h ainvN_empty ainvN_empty
+    ⟨rfl, fun _ => rfl, rfl, rfl, rfl, rfl⟩ (by simp [Active.empty, docIds]) hg
+  have h3 : docIds (run Active.empty h) = allIds (norep h) := by
+    rw [h2]; simp [Active.empty, docIds, norep]
+  exact ⟨h1, h3, by rw [(run_invN Active.empty h ainvN_empty hg).total, h3]⟩
+
+/-- the hypothesis of `c17_idempotent` covers the histories without nested metas -/
+theorem c17_good_of_distinct (h : List (List Meta)) (hd : DistinctBulks h) (hs : NonEmptyDocs h) : GoodBulks h :=
+  goodBulks_of_distinct h hd hs
 
 /-- **c17_counted_once.**  After any such history every delivered id has exactly one LID (`docIds` has no
 duplicates and holds exactly the delivered ids) and `DocsTotal` is the number of distinct delivered ids. -/
@@ -104,7 +119,7 @@ theorem c17_concurrent_once (evs : List Ev) (hg : GoodSchedule evs)
     (crun ⟨Active.empty, []⟩ evs).a.docsTotal = (docIds (crun ⟨Active.empty, []⟩ evs).a).length := by
   have h0 : CInvt ⟨Active.empty, []⟩ := by
     refine ⟨?_, by simp [Active.empty]⟩
-    refine ⟨?_, ?_, ?_, ?_, ?_⟩ <;> simp [virt, Active.empty, docIds]
+    refine ⟨⟨?_, ?_, ?_, ?_⟩, ?_⟩ <;> simp [virt, Active.empty, docIds]
   obtain ⟨⟨hA, h1⟩, hm⟩ := crun_inv ⟨Active.empty, []⟩ evs h0 hg
   have hd : docIds (virt (crun ⟨Active.empty, []⟩ evs)) = docIds (crun ⟨Active.empty, []⟩ evs).a := by
     rw [docIds_virt _ h1, hdone]; simp
@@ -116,6 +131,47 @@ theorem c17_concurrent_once (evs : List Ev) (hg : GoodSchedule evs)
     rw [← hd, hm id]
     simp [virt, Active.empty, docIds]
   · rw [← ht, hA.total, hd]
+
+/-! ## preserved by seal (C03) and by replay (C01) -/
+
+section Composition
+open SV.C17Compose
+
+/-- **c17_sealed_once.**  Composition with C03 (`c03_sealed_eq_active` = `SV.C03.seal_agrees`).  Take any reading
+`view` of the quiescent active fraction from its id table and token queues (everything `Seal` and the data provider
+read; `viewC03` is the concrete one).  For every history with re-deliveries whose final active state is quiescent
+in C03's sense, sealing succeeds, the sealed fraction is *the very fraction* sealed from the history without repeats,
+and it answers every call of the index interface (`Len`, `GetMID`, `GetRID`, `LessOrEqual`, `GetValByTID`, every
+posting node) like the repeat-free active fraction: one LID per first-delivered meta, nothing of a repeat. -/
+theorem c17_sealed_once (view : View) (size cap rbs base : Nat) (posOf : SV.C03.ID → Nat) (h : List (List Meta))
+    (hg : GoodBulks h) (hsize : 1 ≤ size) (hcap : 1 ≤ cap)
+    (hq : SV.C03.Quiescent (view (run Active.empty h).ids (queue (run Active.empty h)))) :
+    ∃ s, SV.C03.sealFrac size size cap rbs base posOf (view (run Active.empty h).ids (queue (run Active.empty h))) = .ok s ∧
+      SV.C03.sealFrac size size cap rbs base posOf
+        (view (run Active.empty (norep h)).ids (queue (run Active.empty (norep h)))) = .ok s ∧
+      SV.C03.IndexAgree (view (run Active.empty (norep h)).ids (queue (run Active.empty (norep h)))) s := by
+  have he := view_congr view _ _ (c17_idempotent h hg).1
+  obtain ⟨s, hs, hagree⟩ := SV.C03.seal_agrees size cap rbs base posOf _ hq hsize hcap
+  exact ⟨s, hs, he ▸ hs, he ▸ hagree⟩
+
+/-- **c17_replayed_once.**  Composition with C01 (`c01_restart_transparent`).  For every crash/restart history of the
+write path, the fraction the index worker rebuilds after a restart (`Replay` hands it the entries `idx`) is the
+fraction of the store that never went down - the same blocks in the same order - and, when the decoded bulks are
+well formed, it is in the single-LID state of the history without repeats: re-deliveries that were dropped while
+ingesting are dropped again while replaying, whatever `dec` (decompression + record loop) is. -/
+theorem c17_replayed_once (dec : SV.WPath.Bytes → List Meta) (h1 h2 : List SV.WPath.Ev) (hwf : ∀ e ∈ h1, e.WF)
+    (hg : GoodBulks ((SV.WPath.run true SV.WPath.init (h1 ++ h2)).idx.map fun e => dec e.blk)) :
+    fracOfEntries dec (SV.WPath.run true SV.WPath.init (h1 ++ .restart :: h2)).idx
+      = fracOfEntries dec (SV.WPath.run true SV.WPath.init (h1 ++ h2)).idx ∧
+    Same (fracOfEntries dec (SV.WPath.run true SV.WPath.init (h1 ++ .restart :: h2)).idx)
+      (run Active.empty (norep ((SV.WPath.run true SV.WPath.init (h1 ++ h2)).idx.map fun e => dec e.blk))) ∧
+    docIds (fracOfEntries dec (SV.WPath.run true SV.WPath.init (h1 ++ .restart :: h2)).idx)
+      = allIds (norep ((SV.WPath.run true SV.WPath.init (h1 ++ h2)).idx.map fun e => dec e.blk)) := by
+  rw [restart_same_store h1 h2 hwf]
+  obtain ⟨i1, i2, -⟩ := c17_idempotent _ hg
+  exact ⟨rfl, i1, i2⟩
+
+end Composition
 
 /-! ## repeats that landed in another fraction: `removeRepetitionsAdvanced` / `MergeQPRs` -/
 
@@ -334,6 +390,60 @@ example :
     (crun ⟨Active.empty, []⟩ evs).pending = [] ∧ docIds (crun ⟨Active.empty, []⟩ evs).a = [(101, 1), (102, 2), (103, 3)] ∧
       (crun ⟨Active.empty, []⟩ evs).a.docsTotal = 3 := by
   decide
+
+/-- the token universe of `exHistory`, per field: `_all_` and `s` with values `a`, `b` -/
+def exU : List (List (Bytes × SV.C03.Tok)) :=
+  [[([95, 97, 108, 108, 95, 58], [])], [([115, 58, 97], [97]), ([115, 58, 98], [98])]]
+
+/-- the hypothesis of `c17_sealed_once` is met: the concrete reading of the state after `exHistory` (five repeats
+dropped) is quiescent in C03's sense - all-documents list [3,2,1] (descending ids), every posting a sublist of it -/
+example : SV.C03.Quiescent (SV.C17Compose.viewC03 exU (run Active.empty exHistory).ids (queue (run Active.empty exHistory))) :=
+  ⟨by decide, by decide, by decide, by decide, by decide, by decide, by
+    intro fl hfl t ht
+    have hf : (SV.C17Compose.viewC03 exU (run Active.empty exHistory).ids (queue (run Active.empty exHistory))).fields
+        = [[⟨[], [3, 2, 1]⟩], [⟨[97], [2]⟩, ⟨[98], [3, 1]⟩]] := by decide
+    have ha : (SV.C17Compose.viewC03 exU (run Active.empty exHistory).ids (queue (run Active.empty exHistory))).allDocs
+        = [3, 2, 1] := by decide
+    rw [hf] at hfl
+    rw [ha]
+    simp only [List.mem_cons, List.not_mem_nil, or_false] at hfl
+    rcases hfl with rfl | rfl
+    · simp only [List.mem_cons, List.not_mem_nil, or_false] at ht; subst ht; exact ⟨by decide, by decide⟩
+    · simp only [List.mem_cons, List.not_mem_nil, or_false] at ht
+      rcases ht with rfl | rfl <;> exact ⟨by decide, by decide⟩⟩
+
+/-- the hypotheses of `c17_replayed_once` are met for every store state by a decoder that yields a well-nested bulk
+(here: the same document with one nested meta in every block - every block after the first is a re-delivery) -/
+example (st : SV.WPath.St) : GoodBulks (st.idx.map fun e => (fun _ => [exDoc 1, { exDoc 1 with size := 0, doc := 0 }]) e.blk) := by
+  intro b hb
+  obtain ⟨e, -, rfl⟩ := List.mem_map.mp hb
+  simp [BulkOK, NestedOK, exDoc]
+
+/-- a nested meta of document `n` (`Size = 0`, same id, token `spans.k:v`) -/
+def exNested (n v : Nat) : Meta := { id := (100 + n, n), size := 0, doc := 0, tokens := [⟨[115, 112], [v]⟩] }
+
+/-- document 1 with two nested metas and document 2; then a whole repeat; then document 1 (with its nested metas)
+again together with the new document 3 -/
+def exNestedHistory : List (List Meta) :=
+  [[exDoc 1, exNested 1 7, exNested 1 8, exDoc 2], [exDoc 1, exNested 1 7, exNested 1 8, exDoc 2],
+   [exDoc 1, exNested 1 7, exNested 1 8, exDoc 3]]
+
+example : GoodBulks exNestedHistory := by
+  intro b hb
+  simp only [exNestedHistory, List.mem_cons, List.not_mem_nil, or_false] at hb
+  rcases hb with rfl | rfl | rfl <;> simp [BulkOK, NestedOK, exDoc, exNested]
+
+/-- **nested metas and totals** (what `SetMultiple` / `Filter` do there): the first delivery accepts the document and
+each of its nested metas (equal position is accepted again), so an id owns one LID per meta and `DocsTotal` counts
+metas - 5 for 3 documents, the behaviour C02 records; a re-delivery is rejected as a whole (document and nested
+metas: other position), so LIDs, postings and `DocsTotal` are exactly those of the history without repeats.
+Re-delivery never changes a count: not a C17 violation. -/
+theorem c17_nested_counts_metas_witness :
+    docIds (run Active.empty exNestedHistory) = [(101, 1), (101, 1), (101, 1), (102, 2), (103, 3)] ∧
+    (run Active.empty exNestedHistory).docsTotal = 5 ∧
+    norep exNestedHistory = [[exDoc 1, exNested 1 7, exNested 1 8, exDoc 2], [], [exDoc 3]] ∧
+    (run Active.empty (norep exNestedHistory)).docsTotal = 5 ∧
+    queue (run Active.empty exNestedHistory) [115, 112, 58, 7] = [2] := by decide
 
 /-- modelled as the code is: `Filter` does not touch `SizeCounter`, so `DocsRaw` also counts the bytes of dropped
 repeats (they are in the docs file of the active fraction); not part of the property -/
